@@ -182,7 +182,7 @@ def scenarios(r, n):
 
 
 def run():
-    chk = Check("C13", props_modules=["GFO.Props.C13", "GFO.Gen.StopGenCheck"], gen_steps=(translators.gen_stop,))
+    chk = Check("C13", props_modules=["GFO.Props.C13", "GFO.Gen.StopGenCheck", "GFO.Gen.DriverGenCheck"], gen_steps=(translators.gen_stop, translators.gen_driver,))
     chk.build_and_audit()
     r = C.rng("C13")
     quick = C.tier() != "thorough"
